@@ -36,11 +36,12 @@ const preludeCore = `
 (declare-fun runes_of (Str) (Array Int Int))
 (declare-fun str_of_runes ((Array Int Int) Int Int) Str)
 (declare-fun str_of_rune (Int) Str)
+(declare-fun str_of_byte (Int) Str)
 (declare-fun utf8_rune (Str Int) Int)
 (declare-fun utf8_width (Str Int) Int)
 (declare-fun tquo (Int Int) Int)
 (declare-fun trem (Int Int) Int)
-(define-fun fdiv ((a Int) (b Int)) Int (ite (and (< a 0) (not (= (trem a b) 0))) (- (tquo a b) 1) (tquo a b)))
+(define-fun fdiv ((fdiv!a Int) (fdiv!b Int)) Int (ite (and (< fdiv!a 0) (not (= (trem fdiv!a fdiv!b) 0))) (- (tquo fdiv!a fdiv!b) 1) (tquo fdiv!a fdiv!b)))
 `
 
 // string axioms, included when the VC mentions the symbol in the first column
@@ -61,6 +62,8 @@ var strAxioms = []struct{ trigger, text string }{
 	{"str_lt", `(assert (forall ((a Str) (b Str)) (! (=> (str_lt a b) (not (str_lt b a))) :pattern ((str_lt a b)))))`},
 	{"str_lt", `(assert (forall ((a Str) (b Str)) (! (or (str_lt a b) (str_lt b a) (= a b)) :pattern ((str_lt a b)))))`},
 	{"str_lt", `(assert (forall ((a Str) (b Str) (c Str)) (! (=> (and (str_lt a b) (str_lt b c)) (str_lt a c)) :pattern ((str_lt a b) (str_lt b c)))))`},
+	{"str_of_rune", `(assert (forall ((r Int)) (! (and (>= (slen (str_of_rune r)) 1) (<= (slen (str_of_rune r)) 4) (=> (and (<= 0 r) (< r 128)) (and (= (slen (str_of_rune r)) 1) (= (sat (str_of_rune r) 0) r)))) :pattern ((str_of_rune r)))))`},
+	{"str_of_byte", `(assert (forall ((r Int)) (! (and (= (slen (str_of_byte r)) 1) (=> (and (<= 0 r) (<= r 255)) (= (sat (str_of_byte r) 0) r))) :pattern ((str_of_byte r)))))`},
 	{"rune_count", `(assert (forall ((s Str)) (! (and (<= 0 (rune_count s)) (<= (rune_count s) (slen s))) :pattern ((rune_count s)))))`},
 }
 
@@ -84,8 +87,9 @@ func solverList(timeoutMs int) []SolverCfg {
 // rawForm is one top-level s-expression of a raw SMT block (prelude axioms, contract smt blocks).
 type rawForm struct {
 	text    string
-	declare string   // symbol declared/defined by this form ("" for assert)
-	uses    []string // declared symbols mentioned
+	declare string     // symbol declared/defined by this form ("" for assert)
+	uses    []string   // declared symbols mentioned
+	pats    [][]string // declared symbols of each :pattern (an axiom can only fire if one pattern's symbols all occur)
 	quant   bool
 }
 
@@ -169,10 +173,50 @@ func (e *Engine) rawForms() []rawForm {
 	}
 	for i := range forms {
 		seen := map[string]bool{}
-		for _, tk := range sexpTokens(forms[i].text) {
+		toks := sexpTokens(forms[i].text)
+		for _, tk := range toks {
 			if declared[tk] && !seen[tk] && tk != forms[i].declare {
 				seen[tk] = true
 				forms[i].uses = append(forms[i].uses, tk)
+			}
+		}
+		if forms[i].declare == "" {
+			// only the outermost quantifier's patterns decide inclusion: take patterns at the
+			// end of the form (after the last body token) - approximated by scanning all :pattern
+			// groups and keeping those of the outermost annotation (the last contiguous run).
+			var runs [][][]string
+			var cur [][]string
+			for k := 0; k < len(toks); k++ {
+				if toks[k] == ":pattern" && k+1 < len(toks) && toks[k+1] == "(" {
+					depth := 0
+					var syms []string
+					j := k + 1
+					for ; j < len(toks); j++ {
+						if toks[j] == "(" {
+							depth++
+						} else if toks[j] == ")" {
+							depth--
+							if depth == 0 {
+								break
+							}
+						} else if declared[toks[j]] {
+							syms = append(syms, toks[j])
+						}
+					}
+					cur = append(cur, syms)
+					k = j
+					continue
+				}
+				if toks[k] != ")" && len(cur) > 0 {
+					runs = append(runs, cur)
+					cur = nil
+				}
+			}
+			if len(cur) > 0 {
+				runs = append(runs, cur)
+			}
+			if len(runs) > 0 {
+				forms[i].pats = runs[len(runs)-1]
 			}
 		}
 	}
@@ -201,6 +245,20 @@ func (e *Engine) vcText(vc *VC, withModel bool, relaxed bool) string {
 			inc := false
 			if f.declare != "" {
 				inc = used[f.declare]
+			} else if len(f.pats) > 0 {
+				for _, p := range f.pats {
+					all := true
+					for _, u := range p {
+						if !used[u] {
+							all = false
+							break
+						}
+					}
+					if all {
+						inc = true
+						break
+					}
+				}
 			} else {
 				for _, u := range f.uses {
 					if used[u] {
@@ -369,6 +427,12 @@ func (e *Engine) solveOne(vc *VC, file string, solvers []SolverCfg, timeoutMs in
 	for _, s := range solvers {
 		switch results[s.Name] {
 		case "unsat":
+			if s.Name == "z3" {
+				// z3 4.8.12 answered unsat on a satisfiable query (define-fun parameter capture);
+				// its unsat never counts (neither for obligations nor for vacuity canaries); only its sat answers (models, validated by replay) are used.
+				results[s.Name] = "unsat(untrusted)"
+				continue
+			}
 			if unsatBy == "" {
 				unsatBy = s.Name
 			}
